@@ -15,7 +15,13 @@ def run(ck):
     ck.extra["walks"] = len(walks)
     names = ["".join(k) for k in keys]
     hidden = {}
-    for backend, wi, si, e, step, case in kvlib.run_walks(ck, b, walks, keys, hashof, sigprefix="C16"):
+    ALT = {"a": "ff", "b": "00", "c": "fe"}          # the letters of the key names stored as the extreme byte values
+    import itertools
+    runs = itertools.chain(((None, x) for x in kvlib.run_walks(ck, b, walks, keys, hashof, sigprefix="C16")),
+                           ((ALT, x) for x in kvlib.run_walks(ck, b, walks if ck.thorough or ck.replay is not None else walks[::2], keys, hashof, sigprefix="C16", alphabet=ALT)))
+    for alpha, (backend, wi, si, e, step, case) in runs:
+        if alpha is not None and not ck.thorough and ck.replay is None:
+            wi = wi * 2
         op = e["op"]
         if si == 0:
             hidden = {}      # keys whose last simple write was Put(k, empty): present as an empty blob in some backends
@@ -42,10 +48,11 @@ def run(ck):
                 continue
         if what:
             sig = "C16:%s:%s" % (backend, op["m"])
-            ck.violation(sig, "%s %s on state %s: %s" % (backend, json.dumps(op), kvlib.canon(e["from"]), what),
+            ck.violation(sig, "%s %s on state %s: %s%s" % (backend, json.dumps(op), kvlib.canon(e["from"]), what, "" if alpha is None else " (key letters stored as bytes %s)" % alpha),
                          {"walk": walks[wi][:si + 1], "backend": backend})
     ck.exhaustive = True
     ck.rule = ("TLC emits every edge (state, operation) of the KV contract model over 2 keys (one a prefix of the other, colliding hashes) x "
-               "values {v1, v2, empty} x children {c1, c2}; greedy covering walks execute every edge on memory, append-only-log and SQLite; "
+               "values {v1, v2, empty} x children {c1, c2}; greedy covering walks execute every edge on memory, append-only-log and SQLite, a second time (quick: every other walk) with the letters of the key "
+               "names stored as the bytes ff / 00 / fe; "
                "reply and projected store are compared after every operation; non-trivial = the operation changes the state or is a read")
     ck.assumptions += ["an empty simple value is absent (Get returning nil or a zero-length slice are the same observation)"]
